@@ -15,19 +15,9 @@ def _atoms_names(d):
 
 
 # ------------------------------------------------------------------------------------------------ C02 / C01
-def task_C02(tier, seed, arg):
+def _aliasing(R, texts, prop):
     import periodictable as pt
     from periodictable.formulas import formula
-    R = Result("containers returned by a formula (.atoms, .mass_fraction, .hill.atoms, .structure) are the caller's: editing "
-               "them must not change that formula, an equal formula built later, or formulas derived by n*f and f+g; "
-               "formulas holding X{q} together with X[A]{q}; strings parsed twice; %s formulas" % ("40" if tier == "quick" else "400"))
-    rng = random.Random(seed)
-    texts = ["H2O", "CaCO3(H2O)6", "CaCO3 + 6H2O", "Na{+}Cl{-}", "(Na{+}Cl{-})2", "Fe{3+}Fe[57]{3+}O{2-}3", "H{+}D{+}O{2-}",
-             "C3H4H[1]3NO2", "Fe[56]{2+}Fe{2+}O2", "D2O", "HDO"]
-    pool = nat.atom_pool()
-    for i in range(40 if tier == "quick" else 400):
-        s = nat.random_structure(rng, pool, depth=2)
-        texts.append(s)
     for t in texts:
         label = t if isinstance(t, str) else "struct%d" % texts.index(t)
         f = formula(t)
@@ -54,10 +44,26 @@ def task_C02(tier, seed, arg):
             else:
                 got, exp = g.atoms, want
             if not nat.maps_close(got, exp):
-                R.violation("C02:aliased_atoms:%s" % what.replace(" ", "_"), "after a caller edited the dict returned by .atoms/.mass_fraction, "
+                R.violation("%s:aliased_atoms:%s" % (prop, what.replace(" ", "_")), "after a caller edited the dict returned by .atoms/.mass_fraction, "
                             "%s reports other atoms (%s)" % (what, label), {"formula": label}, _atoms_names(got), _atoms_names(exp))
         if not close(f.mass, mass0, 1e-12) or f.charge != charge0:
-            R.violation("C02:aliased_atoms:mass_or_charge", "mass/charge changed after editing returned containers", {"formula": label})
+            R.violation("%s:aliased_atoms:mass_or_charge" % prop, "mass/charge changed after editing returned containers", {"formula": label})
+
+
+def task_C02(tier, seed, arg):
+    import periodictable as pt
+    from periodictable.formulas import formula
+    R = Result("containers returned by a formula (.atoms, .mass_fraction, .hill.atoms, .structure) are the caller's: editing "
+               "them must not change that formula, an equal formula built later, or formulas derived by n*f and f+g; "
+               "formulas holding X{q} together with X[A]{q}; strings parsed twice; %s formulas" % ("40" if tier == "quick" else "400"))
+    rng = random.Random(seed)
+    texts = ["H2O", "CaCO3(H2O)6", "CaCO3 + 6H2O", "Na{+}Cl{-}", "(Na{+}Cl{-})2", "Fe{3+}Fe[57]{3+}O{2-}3", "H{+}D{+}O{2-}",
+             "C3H4H[1]3NO2", "Fe[56]{2+}Fe{2+}O2", "D2O", "HDO"]
+    pool = nat.atom_pool()
+    for i in range(40 if tier == "quick" else 400):
+        s = nat.random_structure(rng, pool, depth=2)
+        texts.append(s)
+    _aliasing(R, texts, "C02")
     # an ion and the same ion of one isotope are different atoms with different masses
     K = pt.constants.electron_mass
     for el, iso, q in (("Fe", 57, 3), ("H", 2, 1), ("Li", 6, 1), ("Cl", 37, -1), ("O", 18, -2)):
@@ -81,8 +87,10 @@ def task_C01(tier, seed, arg):
     import periodictable as pt
     from periodictable import core, mass, density
     from periodictable.formulas import formula
-    R = Result("a private table with a customised isotope mass, an extra isotope and a changed element density; strings parsed "
+    R = Result("strings parsed again after a caller edited the dict returned by .atoms; a private table with a customised isotope mass, an extra isotope and a changed element density; strings parsed "
                "with table=T (isotope tags, natural-density tag, single-element default density), each twice", False)
+    _aliasing(R, ["H2O", "CaCO3(H2O)6", "CaCO3 + 6H2O", "Na{+}Cl{-}", "(Na{+}Cl{-})2", "2Na{+}Cl{-} 3H2O", "D2O", "(H2O)2(D2O)3",
+                  "C3H4H[1]3NO2", "Fe{3+}2O{2-}3", "5g NaCl // 50mL H2O@1", "50 wt% Co // Ti"], "C01")
     name = "stateful_c01_%d" % random.Random(seed).randrange(10 ** 9)
     T = core.PeriodicTable(name)
     try:
